@@ -16,6 +16,9 @@ CHECKS = {
  "C07": ("Instruction streams from lowered structured programs and from random/shaped jump graphs (shared targets, jumps into bodies, explicit times, interrupt labels, difficulty tags) x 8 valuations: AstVm of decompile(blocks=false) vs decompile(blocks=true) (flattened by desugar_blocks when the recovered form contains a jump into a block), plus structural invariants: referenced labels defined exactly once, explicit-time jumps kept, time-label statements unchanged.",
          "Differential with AstVm on both sides. Explicit jump times are the previous instruction's time (as in game files); times non-decreasing.",
          "property-based differential testing + structural invariants"),
+ "C09": ("Generated well-typed programs and single-point mutants (literal type, variable of the other type, sigil add/flip/remove, cast wrap/unwrap, operator change, branch types, call arity, declaration type, float conditions/counts/clobbers, assignment target) at uniformly chosen nodes incl. nested free blocks, loop bodies, conditions, declarations, call arguments, const items: Ok/Err of passes::type_check::run == verdict of the reference typer (both directions); for accepted programs the checker's expression types == the types of AstVm-evaluated values.",
+         "The reference typer implements the rules listed in the property statement; function items are not generated.",
+         "property-based mutation testing against a reference typer"),
  "C11": ("Exhaustive operator x boundary-operand tables (bit-exact against M-ops), random constant trees, partially constant trees under AstVm before/after const_simplify over 8 valuations, const chains (named vs inlined lowering, debug-info values, cycles, undefined operations must be diagnosed).",
          "Logical operators compared by truthiness only; float->int casts outside i32 excluded; NaN payloads not compared.",
          "exhaustive boundary tables + property-based testing against a reference evaluator"),
